@@ -286,17 +286,11 @@ func needFamily(r *hx.Rand) {
 		hx.Printf("case %d kind=ms conf=%s need=%s tag=mediansamples+high\n", id, raw(c), needTable(c))
 		hx.Printf("obs %d need=%s:%d\n", id, opName[op], n)
 		id++
-		for _, have := range []int{0, 1, 2, n - 1, n, n + 1, 30, 31, 38, 49, 50, 60} {
-			if have < 0 {
-				continue
-			}
-			op2, n2 := benchmath.VerifMedianSamplesAbove(c, have)
-			hx.Printf("case %d kind=ms conf=%s have=%d need=%s tag=mediansamplesabove\n", id, raw(c), have, needTable(c))
-			hx.Printf("obs %d need=%s:%d\n", id, opName[op2], n2)
-			id++
-		}
+		// medianSamplesAbove(confidence, have) is observed through Summary on samples of `have` values
+		// (the warning's size), not through a hook: the harness must still build against a tree
+		// without that function (seed revert-F25).
 		seen := map[int]bool{}
-		for _, m := range []int{n - 1, n, n + 1, 29, 30, 31, 32 + r.Intn(7), 39 + r.Intn(11), 50, 51 + r.Intn(20)} {
+		for _, m := range []int{1, 2, n - 1, n, n + 1, 29, 30, 31, 32 + r.Intn(7), 38, 39 + r.Intn(11), 49, 50, 51 + r.Intn(20)} {
 			if m < 1 || m > 70 || seen[m] {
 				continue
 			}
